@@ -71,6 +71,60 @@ def _nodoc(stmts):
     return [s for s in stmts if not (isinstance(s, ast.Expr) and isinstance(s.value, ast.Constant) and isinstance(s.value.value, str))]
 
 
+def _rename(fn, mapping):
+    """a deep copy of fn with the LOCAL names of `mapping` renamed (parameters are interface: never renamed)"""
+    import copy
+    return pyexpr._Renamer({k: v for k, v in mapping.items() if k != v}).visit(copy.deepcopy(fn))
+
+
+def _vnorm(fn):
+    """fn with every local variable renamed v0, v1, ... in order of first binding (pyexpr.local_names)"""
+    return _rename(fn, {n: f"v{i}" for i, n in enumerate(pyexpr.local_names(fn))})
+
+
+def _canon_by_order(fn, ref):
+    """rename the locals of fn (order of first binding) onto the names the reference source uses, so that the
+    role-specific checks below can be written with readable names and still ignore how the locals are called"""
+    cur = pyexpr.local_names(fn)
+    if len(cur) != len(ref):
+        raise T.Broken(f"{fn.name}: {len(cur)} local variables ({cur}), the transcribed code has {len(ref)} ({ref})")
+    tmp = _rename(fn, {n: f"__t{i}" for i, n in enumerate(cur)})         # two steps: a swap of names must not collide
+    return _rename(tmp, {f"__t{i}": r for i, r in enumerate(ref)})
+
+
+def _canon_body(fn):
+    """place / remove / move bodies: rename by ROLE - the variable holding the position (bound from agent.pos),
+    the two unpacked coordinates, the occupant read from the cell"""
+    for n in ast.walk(fn):
+        tgt = None
+        if isinstance(n, ast.Assign) and len(n.targets) == 1 and isinstance(n.targets[0], ast.Name) and ast.unparse(n.value) == "agent.pos":
+            tgt = n.targets[0].id
+        elif isinstance(n, ast.NamedExpr) and ast.unparse(n.value) == "agent.pos":
+            tgt = n.target.id
+        if tgt is not None and tgt != "pos":
+            fn = _rename(fn, {tgt: "pos"})
+            break
+    for n in ast.walk(fn):
+        if isinstance(n, ast.Assign) and len(n.targets) == 1 and isinstance(n.targets[0], ast.Tuple) and len(n.targets[0].elts) == 2 \
+                and all(isinstance(e, ast.Name) for e in n.targets[0].elts) and ast.unparse(n.value) == "pos":
+            a, b = (e.id for e in n.targets[0].elts)
+            tmp = _rename(fn, {a: "__x", b: "__y"})
+            fn = _rename(tmp, {"__x": "x", "__y": "y"})
+            break
+    for n in ast.walk(fn):
+        if isinstance(n, ast.Assign) and len(n.targets) == 1 and isinstance(n.targets[0], ast.Name) and ast.unparse(n.value) == "self._grid[x][y]":
+            fn = _rename(fn, {n.targets[0].id: "occupant"})
+            break
+    return fn
+
+
+def _msg(txt):
+    """the text of a statement with the MESSAGE of every raise / warn abstracted"""
+    import re
+    txt = re.sub(r"raise (\w+)\(.*\)$", r"raise \1(<msg>)", txt, flags=re.S)
+    return re.sub(r"\bwarn\(.*?, (\w+Warning)", r"warn(<msg>, \1", txt, flags=re.S)
+
+
 def _oob_call(args):
     if len(args) != 1 or args[0][1] != "tuple":
         raise pyexpr.Unsupported("out_of_bounds argument")
@@ -87,6 +141,17 @@ def c_torus_adj():
     except pyexpr.Unsupported as e:
         raise T.Broken(f"torus_adj is outside the translated subset: {e}") from None
     return f"Definition gen_torus_adj (w h : Z) (torus : bool) (pos : Z * Z) : option (Z * Z) :=\n  {body}."
+
+
+def c_torus_adj_2d():
+    fn = T._find_func(_cls("_HexGrid"), "torus_adj_2d")
+    _params(fn, ["self", "pos"])
+    tr = pyexpr.Tr(attr_map=ATTRS, tuple_names=["pos"])
+    try:
+        body = tr.body(list(fn.body), "tuple")
+    except pyexpr.Unsupported as e:
+        raise T.Broken(f"torus_adj_2d is outside the translated subset: {e}") from None
+    return f"Definition gen_torus_adj_2d (w h : Z) (pos : Z * Z) : Z * Z :=\n  {body}."
 
 
 def c_distance_squared():
@@ -140,9 +205,22 @@ class _CutoffTr(pyexpr.Tr):
         return super().expr(e)
 
 
+MTE_SKELETON = [
+    "v0 = len(self.empties)",
+    "<if no empty cells: raise>",
+    "<if cutoff>",
+    "self.remove_agent(agent)",
+    "self.place_agent(agent, v1)",
+]
+MTE_SAMPLING = ["while True:\n    v1 = (agent.random.randrange(self.width), agent.random.randrange(self.height))\n"
+                "    if self.is_cell_empty(v1):\n        break"]
+MTE_CHOICE = ["v1 = agent.random.choice(sorted(self.empties))"]
+
+
 def _move_to_empty_parts():
     fn = T._find_func(_cls("_Grid"), "move_to_empty")
     _params(fn, ["self", "agent"])
+    fn = _rename(fn, {n: c for n, c in zip(pyexpr.local_names(fn), ["num_empty_cells", "new_pos"])})
     body = _nodoc(fn.body)
     ifs = [s for s in body if isinstance(s, ast.If)]
     if len(ifs) != 2 or not ifs[1].orelse:
@@ -164,27 +242,20 @@ def c_move_to_empty_branch():
             f"  {text}.")
 
 
-MTE_SKELETON = [
-    "num_empty_cells = len(self.empties)",
-    "<if no empty cells: raise>",
-    "<if cutoff>",
-    "self.remove_agent(agent)",
-    "self.place_agent(agent, new_pos)",
-]
-MTE_SAMPLING = ["while True:\n    new_pos = (agent.random.randrange(self.width), agent.random.randrange(self.height))\n"
-                "    if self.is_cell_empty(new_pos):\n        break"]
-MTE_CHOICE = ["new_pos = agent.random.choice(sorted(self.empties))"]
-
-
 def c_move_to_empty_skeleton():
-    fn, body, ifs = _move_to_empty_parts()
-    got = []
-    for s in body:
-        got.append("<if no empty cells: raise>" if s is ifs[0] else "<if cutoff>" if s is ifs[1] else ast.unparse(s))
+    """the glue of move_to_empty, modulo the names of its locals, the exception message, docstrings, comments"""
+    fn0 = T._find_func(_cls("_Grid"), "move_to_empty")
+    _params(fn0, ["self", "agent"])
+    fn = _vnorm(fn0)
+    body = _nodoc(fn.body)
+    ifs = [s for s in body if isinstance(s, ast.If)]
+    if len(ifs) != 2 or not ifs[1].orelse:
+        raise T.Broken("move_to_empty: expected two top-level ifs")
+    got = ["<if no empty cells: raise>" if s is ifs[0] else "<if cutoff>" if s is ifs[1] else ast.unparse(s) for s in body]
     if got != MTE_SKELETON:
         raise T.Broken(f"statement skeleton of move_to_empty changed: {got}")
-    if len(ifs[0].body) != 1 or not isinstance(ifs[0].body[0], ast.Raise) or "No empty cells" not in ast.unparse(ifs[0].body[0]) or ifs[0].orelse:
-        raise T.Broken("move_to_empty: the first `if` no longer just raises 'No empty cells'")
+    if len(ifs[0].body) != 1 or not isinstance(ifs[0].body[0], ast.Raise) or not ast.unparse(ifs[0].body[0]).startswith("raise Exception(") or ifs[0].orelse:
+        raise T.Broken("move_to_empty: the first `if` no longer just raises an Exception")
     if [ast.unparse(s) for s in ifs[1].body] != MTE_SAMPLING or [ast.unparse(s) for s in ifs[1].orelse] != MTE_CHOICE:
         raise T.Broken("move_to_empty: the sampling loop / the choice among sorted(self.empties) changed")
     return "Definition gen_move_to_empty_skeleton_ok : bool := true."
@@ -194,6 +265,7 @@ def c_move_to_empty_skeleton():
 def _one_of_parts():
     fn = T._find_func(_cls("_Grid"), "move_agent_to_one_of")
     _params(fn, ["self", "agent", "pos", "selection", "handle_empty"])
+    fn = _canon_by_order(fn, ["chosen_pos", "current_pos", "closest_pos", "min_distance", "p", "distance"])
     body = _nodoc(fn.body)
     if len(body) != 1 or not isinstance(body[0], ast.If) or ast.unparse(body[0].test) != "pos":
         raise T.Broken("move_agent_to_one_of: expected one top-level `if pos:`")
@@ -276,8 +348,8 @@ def c_one_of_skeleton():
     if got != ONE_OF_CLOSEST_GLUE:
         raise T.Broken(f"move_agent_to_one_of: glue of the 'closest' branch changed: {got}")
     bad = closest.orelse
-    if len(bad) != 1 or not isinstance(bad[0], ast.Raise) or "ValueError" not in ast.unparse(bad[0]) or "Invalid selection" not in ast.unparse(bad[0]):
-        raise T.Broken("move_agent_to_one_of: an unknown selection no longer raises ValueError('Invalid selection ...')")
+    if len(bad) != 1 or not isinstance(bad[0], ast.Raise) or not ast.unparse(bad[0]).startswith("raise ValueError("):
+        raise T.Broken("move_agent_to_one_of: an unknown selection no longer raises ValueError")
     if ast.unparse(top.body[1]) != "self.move_agent(agent, chosen_pos)":
         raise T.Broken("move_agent_to_one_of: the final move changed")
     el = top.orelse
@@ -288,8 +360,8 @@ def c_one_of_skeleton():
         raise T.Broken("move_agent_to_one_of: handle_empty='warning' no longer warns")
     if len(w.orelse) != 1 or not isinstance(w.orelse[0], ast.If) or ast.unparse(w.orelse[0].test) != "handle_empty == 'error'" \
             or w.orelse[0].orelse or len(w.orelse[0].body) != 1 or not isinstance(w.orelse[0].body[0], ast.Raise) \
-            or "No positions given" not in ast.unparse(w.orelse[0].body[0]) or "ValueError" not in ast.unparse(w.orelse[0].body[0]):
-        raise T.Broken("move_agent_to_one_of: handle_empty='error' no longer raises ValueError('No positions given ...')")
+            or not ast.unparse(w.orelse[0].body[0]).startswith("raise ValueError("):
+        raise T.Broken("move_agent_to_one_of: handle_empty='error' no longer raises ValueError")
     return "Definition gen_move_one_of_skeleton_ok : bool := true."
 
 
@@ -309,10 +381,11 @@ SWAP_SKELETON = [
 def c_swap_skeleton():
     fn = T._find_func(_cls("_Grid"), "swap_pos")
     _params(fn, ["self", "agent_a", "agent_b"])
+    fn = _canon_by_order(fn, ["agents_no_pos", "pos_a", "pos_b", "a"])
     got = []
     for s in _nodoc(fn.body):
         if isinstance(s, ast.If) and ast.unparse(s.test) == "agents_no_pos" and not s.orelse and isinstance(s.body[-1], ast.Raise) \
-                and "not on the grid" in ast.unparse(s.body[-1]) and ast.unparse(s.body[-1]).startswith("raise Exception(") \
+                and ast.unparse(s.body[-1]).startswith("raise Exception(") \
                 and all(isinstance(b, (ast.Assign, ast.Raise)) for b in s.body):
             got.append("<if agents_no_pos: raise ... not on the grid>")
         else:
@@ -387,10 +460,10 @@ def _stmts(body):
         if u in STMTS:
             out.append(STMTS[u])
         elif isinstance(s, ast.Raise):
-            kinds = [k for m, k in RAISE_KINDS.items() if m in u]
-            if len(kinds) != 1 or not u.startswith("raise Exception("):
+            # the only rejection these bodies contain is the occupied-cell one; its message text is free
+            if not u.startswith("raise Exception("):
                 raise T.Broken(f"raise statement outside the DSL: {u!r}")
-            out.append(f"(LSRaise {kinds[0]})")
+            out.append("(LSRaise 2)")
         elif isinstance(s, ast.If):
             test = s.test
             # `if (pos := agent.pos) is None:` binds pos, then tests it
@@ -416,7 +489,7 @@ def _body(cls, fn_name, params, gen_name, decorators=()):
         decs = [ast.unparse(d) for d in fn.decorator_list]
         if decs != list(decorators):
             raise T.Broken(f"decorators of {cls}.{fn_name} changed: {decs}")
-        return f"Definition {gen_name} : list lg_stmt :=\n  {_lst(_stmts(fn.body))}."
+        return f"Definition {gen_name} : list lg_stmt :=\n  {_lst(_stmts(_canon_body(fn).body))}."
 
     def fb():
         return f"Definition {gen_name} : list lg_stmt := [LSRaise 99]."
@@ -427,6 +500,8 @@ WARN = ("warn_if_agent_has_position_already",)
 CONSTRUCTS = [
     ("grid_torus_adj_code", SRC, c_torus_adj,
      lambda: "Definition gen_torus_adj (w h : Z) (torus : bool) (pos : Z * Z) : option (Z * Z) := None."),
+    ("hexgrid_torus_adj_2d_code", SRC, c_torus_adj_2d,
+     lambda: "Definition gen_torus_adj_2d (w h : Z) (pos : Z * Z) : Z * Z := (-1, -1)."),
     ("grid_distance_squared_code", SRC, c_distance_squared,
      lambda: "Definition gen_distance_squared (w h : Z) (torus : bool) (pos1 pos2 : Z * Z) : Z := -1."),
     ("grid_is_cell_empty_code", SRC, c_is_cell_empty,
